@@ -277,6 +277,8 @@ class PVLParser(object):
                     parsing = True
                 else:
                     return m
+            except LexerError:
+                raise
             except Exception:
                 pass
 
